@@ -381,6 +381,43 @@ def run(ctx: Context, rep) -> None:
            "pickling")
     gi = filler.methods["get_updated_infos"]
     check_exit_reports(ctx, rep, "C09.collect")
+    # what the parent publishes after the writers ran is the description it
+    # held before: the in-memory description has one writer (the base
+    # constructor) and objects cross the process boundary by default pickling
+    rep.rule(
+        "C09.state",
+        "`_dataset_info` is assigned only in DatasetBase.__init__ (the multi-"
+        "writer entry point neither reloads nor replaces it), and no class of "
+        "sedpack.io customises pickling / copying (__getstate__, __setstate__, "
+        "__reduce__, __reduce_ex__, __copy__, __deepcopy__): the assumption "
+        "that default pickling carries the state unchanged rests on it")
+    n_st = 0
+    for fn_ in ctx.repo.all_functions():
+        if not fn_.module.name.startswith("sedpack.io"):
+            continue
+        for n_ in fn_.body_nodes():
+            tg = []
+            if isinstance(n_, ast.Assign):
+                tg = n_.targets
+            elif isinstance(n_, (ast.AnnAssign, ast.AugAssign)):
+                tg = [n_.target]
+            for t_ in tg:
+                if isinstance(t_, ast.Attribute) and t_.attr == "_dataset_info":
+                    n_st += 1
+                    rep.ob("C09.state", fn_.qualname == "DatasetBase.__init__",
+                           loc=fn_.loc(n_), where=fn_.qualname,
+                           construct=short(n_, 70),
+                           message="the in-memory description is replaced "
+                           "outside the constructor (unsaved edits of the "
+                           "caller are lost when the parent publishes)")
+        if fn_.name in ("__getstate__", "__setstate__", "__reduce__",
+                        "__reduce_ex__", "__copy__", "__deepcopy__") and \
+                fn_.cls is not None:
+            rep.ob("C09.state", False, loc=fn_.loc(), where=fn_.qualname,
+                   construct=f"def {fn_.name}",
+                   message="custom pickling / copying of an object that "
+                   "crosses the process boundary")
+    rep.floor("C09.state", n_st, 1, "stores to _dataset_info")
     # writers touch only their own fresh files (who-may-create/delete), and
     # the merge of their lists starts from the lists already on disk
     from sa.rules.c06 import check_who
@@ -391,12 +428,16 @@ def run(ctx: Context, rep) -> None:
     # computed with the configured algorithms (same rule as C16.when)
     from sa.rules.c16 import check_when
     check_when(ctx, rep, "C09.hashes")
-
-
+    # nothing read from the dataset's files / the environment is memoised
+    from sa.rules import shared as _shm
+    _shm.check_no_memo(ctx, rep, "C09.memo")
 
 _P = "src/sedpack/io/dataset_writing.py"
 _F = "src/sedpack/io/dataset_filler.py"
 SELFTESTS = [
+    dict(rule="C09.state", name="parent-reloads-description", expect="fire", path=_P,
+         old="        # Update\n        updated_infos: list[ShardListInfo] = []\n",
+         new="        self._dataset_info = DatasetBase._load(self.path)\n        # Update\n        updated_infos: list[ShardListInfo] = []\n"),
     dict(rule="C09.fresh", name="uuid-hoisted", expect="fire", path=_P,
          old="        dataset_fillers = [\n            DatasetFiller(\n                dataset=self,\n                relative_path_from_split=Path(uuid.uuid4().hex),",
          new="        subdir = Path(uuid.uuid4().hex)\n        dataset_fillers = [\n            DatasetFiller(\n                dataset=self,\n                relative_path_from_split=subdir,"),
